@@ -100,6 +100,10 @@ theorem run_conforms_gen {cfg : CompCfg} {n : Node} {cp : Compiled} {F : Val →
   unfold compileProgram at hc
   rw [bind_ok] at hc
   obtain ⟨⟨code, p⟩, hcn, hcp⟩ := hc
+  -- C05: with the offset guard (`cfg.jumpGuard`) an oversized jump makes `compileProgram` fail
+  dsimp only at hcp
+  split at hcp
+  · cases hcp
   simp only [pure_ok] at hcp
   subst hcp
   have hinv : PoolInv F {} := ⟨fun i w h => by simp at h, fun o h => by cases h⟩
